@@ -260,7 +260,7 @@ func (t *trSys) openStream(addr string) {
 }
 
 // quiet: nothing is in flight or open on any pooled connection and no server was ever killed
-func (t *trSys) quiet() bool { return t.nbusy == 0 && len(t.streams) == 0 && t.kills == 0 }
+func (t *trSys) quiet() bool { return t.nbusy == 0 && len(t.streams) == 0 && t.kills == 0 && !t.keep } // (with stalled threads kept across events the housekeeping itself may be the stalled one)
 
 // checkQuiet: after a period longer than KeepAlive in which the Transport was not used at all, every
 // connection has been retired; at most MaxIdleConnsPerHost per host may still be open (in the idle
